@@ -87,15 +87,9 @@ impl Add<Duration> for Duration {
     type Output = Duration;
 
     fn add(self, rhs: Duration) -> Self::Output {
-        let mut sec = self.sec.saturating_add(rhs.sec);
-        let mut nanosec = (self.nanosec as u64) + (rhs.nanosec as u64);
-        let sec_in_nanosec = nanosec / 1_000_000_000;
-        nanosec -= sec_in_nanosec * 1_000_000_000;
-        sec = sec.saturating_add(sec_in_nanosec as i32);
-        Self {
-            sec,
-            nanosec: nanosec as u32,
-        }
+        let (sec, nanosec) =
+            from_total_nanosec(total_nanosec(self.sec, self.nanosec) + total_nanosec(rhs.sec, rhs.nanosec));
+        Self { sec, nanosec }
     }
 }
 
@@ -103,16 +97,28 @@ impl Sub<Duration> for Duration {
     type Output = Duration;
 
     fn sub(self, rhs: Duration) -> Self::Output {
-        let mut sec = self.sec.saturating_sub(rhs.sec);
-        let nanosec_diff = (self.nanosec as i64) - (rhs.nanosec as i64);
-        let nanosec = if nanosec_diff < 0 {
-            sec = sec.saturating_sub(1);
-            (1_000_000_000 + nanosec_diff) as u32
-        } else {
-            self.nanosec - rhs.nanosec
-        };
+        let (sec, nanosec) =
+            from_total_nanosec(total_nanosec(self.sec, self.nanosec) - total_nanosec(rhs.sec, rhs.nanosec));
         Self { sec, nanosec }
     }
+}
+
+const NANOSEC_PER_SEC: i64 = 1_000_000_000;
+
+/// Total number of nanoseconds of a (sec, nanosec) pair. Always fits an i64.
+fn total_nanosec(sec: i32, nanosec: u32) -> i64 {
+    sec as i64 * NANOSEC_PER_SEC + nanosec as i64
+}
+
+/// Normalized (sec, nanosec) pair for a total number of nanoseconds, saturating at the range of the seconds.
+fn from_total_nanosec(total_nanosec: i64) -> (i32, u32) {
+    let min = i32::MIN as i64 * NANOSEC_PER_SEC;
+    let max = i32::MAX as i64 * NANOSEC_PER_SEC + (NANOSEC_PER_SEC - 1);
+    let total_nanosec = total_nanosec.clamp(min, max);
+    (
+        total_nanosec.div_euclid(NANOSEC_PER_SEC) as i32,
+        total_nanosec.rem_euclid(NANOSEC_PER_SEC) as u32,
+    )
 }
 
 fn fraction_to_nanosec(fraction: u32) -> u32 {
@@ -226,15 +232,9 @@ impl Add<Duration> for Time {
     type Output = Time;
 
     fn add(self, rhs: Duration) -> Self::Output {
-        let mut sec = self.sec.saturating_add(rhs.sec);
-        let mut nanosec = (self.nanosec as u64) + (rhs.nanosec as u64);
-        let sec_in_nanosec = nanosec / 1_000_000_000;
-        nanosec -= sec_in_nanosec * 1_000_000_000;
-        sec = sec.saturating_add(sec_in_nanosec as i32);
-        Self {
-            sec,
-            nanosec: nanosec as u32,
-        }
+        let (sec, nanosec) =
+            from_total_nanosec(total_nanosec(self.sec, self.nanosec) + total_nanosec(rhs.sec, rhs.nanosec));
+        Self { sec, nanosec }
     }
 }
 impl AddAssign<Duration> for Time {
